@@ -195,6 +195,15 @@ func VerifDir() string {
 	return "/verif"
 }
 
+// OutDir is where evidence and replay files go: VERIF_SCRATCH when set (mutation runs against a
+// changed tree must not overwrite the evidence of the real tree), else VerifDir.
+func OutDir() string {
+	if v := os.Getenv("VERIF_SCRATCH"); v != "" {
+		return v
+	}
+	return VerifDir()
+}
+
 // Modes are extra sub-commands of the vcheck binary registered by property packages (stand-in
 // processes such as the pty peer).
 var Modes = map[string]func(args []string) int{}
